@@ -403,6 +403,8 @@ def run(ctx):
     import c02_passes
     c02_passes.tie_reshape_pair_pass(ctx, 150 if ctx.tier == "quick" else 1500)
     c02_passes.tie_transpose_pair_pass(ctx, 200 if ctx.tier == "quick" else 2000)
+    c02_passes.tie_transpose_add_forest_pass(ctx, 200 if ctx.tier == "quick" else 2000)
+    c02_passes.tie_transpose_reduce_pass(ctx, 200 if ctx.tier == "quick" else 1500)
     items, res = enumerate_graphs(ctx)
     import collections
     st = collections.Counter(r["status"] for r in res)
